@@ -168,8 +168,41 @@ def _cls_selector_major(m, params):
     return m.get("check") in ("order",) and m.get("selector_major") is True and m.get("same_multiset") is True
 
 
+def _name_of(step):
+    return "".join(map(chr, step["n"]))
+
+
+def _needs_escape(name):
+    return any(c in "'\\" or ord(c) < 0x20 for c in name)
+
+
+def _raw_path(loc):
+    """The implementation's path rendering (state.rs Pointer::key/idx): member names embedded unescaped;
+    a name that begins and ends with ' is taken to be already quoted."""
+    out = "$"
+    for st in loc:
+        if st["k"] == "i":
+            out += f"[{st['i']}]"
+        else:
+            n = _name_of(st)
+            out += f"[{n}]" if (n.startswith("'") and n.endswith("'")) else f"['{n}']"
+    return out
+
+
+def _cls_np_raw_name(m, params):
+    # D11: the node's location contains a member name that needs escaping in a Normalized Path
+    # (', \ or a C0 control) AND the reported path is exactly the raw embedding of the names
+    loc = m.get("node_loc")
+    if m.get("check") != "paths" or loc is None or "actual_path" not in m or "expected_path" not in m:
+        return False
+    if not any(st["k"] == "n" and _needs_escape(_name_of(st)) for st in loc):
+        return False
+    return m["actual_path"] == _raw_path(loc)
+
+
 CLASSIFIERS = {
     "selector_major": _cls_selector_major,
+    "np_raw_name": _cls_np_raw_name,
 }
 
 
@@ -319,36 +352,52 @@ def loc_disp(l):
 
 
 # ----------------------------------------------------------------------------- properties
-def prop_eval(prop, universe, checks, rule, assumptions):
+def tlc_only_stage(ev, module, tier, seed, note, timeout=1200, cfg=None, env=None, coverage=False):
+    """A machine whose properties TLC checks on the specification side only."""
+    e = {"VERIF_TIER": tier, "VERIF_SEED": str(seed)}
+    e.update(env or {})
+    r = run_tlc(module, cfg=cfg, env=e, timeout=timeout, coverage=coverage)
+    ev.add_tlc(module if not cfg else f"{module}[{cfg}]", r, note)
+    return r
+
+
+def make_prop(prop, stages, rule, assumptions, level="model_checking"):
+    """stages: list of callables (ev, tier, seed) -> (mismatches, cases_path or None)."""
     def run(tier, seed):
-        ev = Evidence(prop, tier, seed)
+        ev = Evidence(prop, tier, seed, level)
         ev.rule = rule
         ev.assumptions = assumptions
         build_harness()
-        mism, cases = eval_stage(ev, prop, universe, checks, tier, seed)
-        viol, hits, kb = classify(prop, mism)
-        rc = report(ev, prop, viol, hits, kb, lambda m: find_case(cases, m.get("id")))
+        all_m, tmpfiles = [], []
+        for st in stages:
+            mism, cases = st(ev, tier, seed)
+            for m in mism:
+                m["_cases"] = cases
+            all_m += mism
+            if cases:
+                tmpfiles.append(cases)
+        viol, hits, kb = classify(prop, all_m)
+
+        def lookup(m):
+            c = m.pop("_cases", None)
+            return find_case(c, m.get("id")) if c else None
+        rc = report(ev, prop, viol, hits, kb, lookup)
         ev.exhaustive = False
         ev.write()
-        os.remove(cases)
+        for f in tmpfiles:
+            try:
+                os.remove(f)
+            except OSError:
+                pass
         return rc
     return run
 
 
-COMMON_ASSUME = [
-    "the TLA+ transcription of RFC 9535 (spec/JPSemantics.tla) is faithful; anchored by the RFC's example tables as ASSUMEs (spec/RFCExamples.tla), reproduced from memory",
-    "TLC 1.8.0 evaluates the specification correctly",
-    "bounded universes: documents, queries and values are those of spec/Universes.tla for the tier",
-    "node identity is decided by address inside the caller's document (harness/src/addr.rs)",
-]
+def ES(prop, universe, checks, label=None):
+    return lambda ev, tier, seed: eval_stage(ev, prop, universe, checks, tier, seed, label=label)
+
 
 PROPS = {}
-PROPS["C01"] = prop_eval("C01", "C01", "nodes",
-    "every (document, query) pair of universe C01 (strided by seed) driven through the evaluation machine; "
-    "non-trivial = the specification's nodelist is non-empty; distinct = distinct REPLAY lines",
-    COMMON_ASSUME)
-PROPS["C02"] = prop_eval("C02", "C01", "order",
-    "as C01 but the result SEQUENCE is compared; non-trivial = non-empty expected nodelist", COMMON_ASSUME)
 
 
 def do_replay(prop, path):
@@ -395,6 +444,7 @@ def main(argv):
     try:
         if replay:
             sys.exit(do_replay(prop, replay))
+        import props  # noqa: F401  (fills PROPS)
         if prop not in PROPS:
             raise ToolError(f"unknown property {prop}")
         rc = PROPS[prop](tier, seed)
